@@ -9,7 +9,7 @@ OUT=$ROOT/build/regress; rm -rf "$OUT"; mkdir -p "$OUT"
 for d in seeded/*/; do
   name=$(basename $d)
   [ -f "$d/patch.diff" ] || continue
-  if [[ $name == harmless-* ]]; then echo "$name $SUB"; continue; fi
+  if [[ $name == harmless-* ]]; then [ -n "$SKIP_HARMLESS" ] || echo "$name $SUB"; continue; fi
   props=$(python3 -c "import json;print(' '.join(json.load(open('$d/meta.json'))['confirmed']['detected_by']))")
   for s in $SUB; do if [[ " $props " == *" $s "* ]]; then echo "$name $props"; break; fi; done
 done | xargs -P "$P" -L 1 bash -c 'n=$0; bash '"$ROOT"'/tools/try_seed_par.sh '"$ROOT"'/seeded/$n/patch.diff "$@" > '"$OUT"'/$n.txt 2>&1'
